@@ -466,11 +466,22 @@ def run_extended(ctx, res, thorough):
                 real.reset_process_state()
                 real.set_store(store_kind, os.path.join(base, "si"), os.path.join(base, "sd"))
                 ref.call(cmd="refpaths", paths={})
-                plan = ["first"] + [rng.choice(["edit", "edit", "edit", "revert", "none"]) for _ in range(6 if thorough else 4)]
+                # every slot is edited at least once (in a random order), with reverts and plain re-evaluations in between
+                todo = list(slot_names)
+                rng.shuffle(todo)
+                plan = ["first"]
+                for n_ in todo:
+                    plan.append("edit:" + n_)
+                    if rng.random() < 0.3:
+                        plan.append(rng.choice(["revert", "none"]))
+                plan += [rng.choice(["edit", "revert", "none"]) for _ in range(3 if thorough else 1)]
                 for si, kind in enumerate(plan):
+                    forced = None
+                    if kind.startswith("edit:"):
+                        kind, forced = "edit", kind[5:]
                     desc = {"kind": kind}
                     if kind == "edit":
-                        n = rng.choice(slot_names)
+                        n = forced or rng.choice(slot_names)
                         slots[n] += 1 + rng.randint(0, 2)
                         desc["slot"] = n
                         history.append(dict(slots))
